@@ -16,8 +16,9 @@ ASSUMPTIONS = ["segment lengths are taken from seg.length() (C06 owns their corr
                "paths have positive total length; the leading segment is not zero-length"]
 # coverage-guided second engine (atheris), thorough tier only: (shards, libFuzzer runs per shard)
 FUZZ = {'thorough': (16, 20000)}
-CONFIGS = ['scipy']
-BUDGET = {'quick': 6000, 'thorough': 150000}
+CONFIGS = ['scipy', 'noscipy']
+BUDGET = {'quick': {'scipy': 6000, 'noscipy': 160}, 'thorough': {'scipy': 150000, 'noscipy': 6000}}
+CASE_TIMEOUT = 60
 
 EPS = 2.0 ** -52
 
@@ -28,7 +29,7 @@ VIAS = ['scaled', 'scaled_xy', 'rotated', 'translated', 'approx_arcs_cubics', 'a
         'setitem_first_negative', 'setitem_last', 'extend', 'insert_front', 'delete_last', 'set_end', 'set_start']
 
 
-REQUIRED = ['via_reversed'] + ['via:' + v for v in VIAS] + [ 'near_miss_joint', 'T:boundary', 'T:near_one', 'zero_length_segment', 'discontinuous', 'closed', 'T:interior']
+REQUIRED = ['loop_segment', 'via_reversed'] + ['via:' + v for v in VIAS] + [ 'near_miss_joint', 'T:boundary', 'T:near_one', 'zero_length_segment', 'discontinuous', 'closed', 'T:interior']
 
 
 def _warm(ctx, p, arg):
@@ -119,8 +120,20 @@ def _derive(case, ctx, specs):
 def strategy(tier, config):
     @st.composite
     def s(draw):
-        specs = draw(gen.chain_specs(min_size=1, max_size=8, unequal=True, zero_len_prob=12,
-                                     break_prob=draw(st.sampled_from([0, 0, 25]))))
+        if config == 'noscipy':
+            # the pure-Python length fallback costs up to seconds per curved segment at large scales: small paths at unit scale
+            specs = draw(gen.chain_specs(min_size=1, max_size=4, unequal=False, zero_len_prob=12, arcs=draw(st.integers(0, 3)) == 0,
+                                         scale=draw(st.sampled_from([1e-2, 1.0, 1.0])), break_prob=draw(st.sampled_from([0, 0, 25]))))
+        else:
+            specs = draw(gen.chain_specs(min_size=1, max_size=8, unequal=True, zero_len_prob=12,
+                                         break_prob=draw(st.sampled_from([0, 0, 25]))))
+        if draw(st.integers(0, 5)) == 0:
+            # one segment is a loop: a cubic that returns to its own start point (chord 0, positive length)
+            i = draw(st.integers(0, len(specs)))
+            at = specs[i][1] if i < len(specs) else specs[-1][-1]
+            sz = gen.spec_size(specs) or 1.0
+            a, b = draw(gen.floats_in(0.2, 1.0)) * sz, draw(gen.floats_in(0.2, 1.0)) * sz
+            specs.insert(i, ['C', list(at), [at[0] + a, at[1] + b], [at[0] + a, at[1] - b], list(at)])
         ts = draw(st.lists(st.one_of(gen.floats_in(0.0, 1.0), st.sampled_from([0.0, 1.0, 0.5])), min_size=2, max_size=4))
         # boundary selectors: (segment index fraction, ulp offset)
         bsel = draw(st.lists(st.tuples(st.integers(0, 7), st.integers(-2, 2)), min_size=2, max_size=5))
@@ -178,6 +191,22 @@ def check(case, ctx):
     lens = [ctx.lib('seg.length', seg.length) for seg in path]
     if not all(math.isfinite(l) and l >= 0 for l in lens):
         ctx.discard('segment length not finite (C06)')
+    # the lengths are the library's own (C06 decides whether they are right), but a fraction table built on a length that is
+    # not even between the chord polyline and the control polygon is not an arc-length fraction table
+    for sp, l in zip(specs, lens):
+        if sp[0] == 'A':
+            continue
+        zs = [gen.C(p) for p in sp[1:]]
+        n_ = len(zs) - 1
+        samp = [sum(math.comb(n_, i) * (1 - t) ** (n_ - i) * t ** i * zs[i] for i in range(n_ + 1)) for t in [j / 16.0 for j in range(17)]]
+        lo = sum(abs(b - a) for a, b in zip(samp, samp[1:]))
+        hi = sum(abs(b - a) for a, b in zip(zs, zs[1:]))
+        mag = max(abs(z) for z in zs) + hi
+        # (1e-11: lengths are computed to an absolute tolerance, LENGTH_ERROR = 1e-12, by design)
+        ctx.check(lo * (1 - 1e-6) - 64 * EPS * mag - 1e-11 <= l <= hi * (1 + 1e-6) + 64 * EPS * mag + 1e-11, 'segment_length_outside_trivial_bounds',
+                  'segment %r reports length %r, but its 16-chord polyline is %r and its control polygon %r long' % (sp, l, lo, hi))
+    if any(sp[0] == 'C' and sp[1] == sp[-1] and gen.pts_distinct(sp[1:]) for sp in specs):
+        ctx.count('loop_segment')
     total = math.fsum(lens)
     if not total > 0 or lens[0] == 0:
         ctx.discard('zero total length or zero-length leading segment')
